@@ -395,6 +395,8 @@ func nsWalkRules(c *Ctx, prop string) (*report.Result, error) {
 			siteCount[r.Name()] = n
 		}
 		checkNamespaceMethodGate(c, res, "O12.8", m, siteCount)
+		res.RuleDoc["O12.9"] = "a translated blob replaces the original as a whole: after translateOneDataBlob / translateDataBlobs reported a match or a change, no path of visitDataBlobs reaches a return without visit.Assign of the returned blob (same analysis as O17.4) - the re-serialized blob carries its own encoding label, so copying only its bytes into the old blob leaves a JSON-labelled blob holding proto3 bytes, which the receiving cluster cannot decode"
+		checkRepairedBlobWrittenBack(c, res, "O12.9")
 	}
 
 	res.Explanation = fmt.Sprintf("Type-graph walk (mirroring github.com/keilerkonzept/visit as driven by interceptor.visitNamespace) from %d service message roots (+%d extra roots) of the pinned go.temporal.io/api and go.temporal.io/server/api: %d type paths enumerated exhaustively (recursion cut when a named struct re-appears on the path). An oracle independent of the repo's tables (field name contains 'namespace', string-like type, not an id; NamespaceInfo.Name; reviewed DataBlob classification) names the sites that carry a namespace; the repo's recognisers (namespaceFieldNames, dataBlobFieldNames, the skip list, the type switches of visitDataBlobs / isSkippableForNamespaceTranslation) are read from the current source and every site must be recognised; the skip list must not contain an event type whose attributes reach a site; the visit callbacks must not cut the walk outside the reviewed classes. Decides the structural completeness of the walker, not the run-time behaviour of visit.Assign or the serializer.",
